@@ -244,30 +244,37 @@ where
             0 => return,                                 //edge-case
             1 => self.add(other.iter().next().unwrap()), //edge-case
             _ => {
-                let mut updated = false;
+                // the items to add are gathered first: appending them right away would break the
+                // ordering that the binary searches on this collection rely on
+                let mut newitems: Vec<T::FullHandleType> = Vec::new();
                 let mut offset = 0;
                 for item in other.iter() {
-                    if self.sorted && other.sorted {
+                    let found = if self.sorted && other.sorted {
                         //optimisation if both are sorted
                         match self.array[offset..].binary_search(&item) {
-                            Ok(index) => offset = index + 1,
+                            Ok(index) => {
+                                offset += index + 1;
+                                true
+                            }
                             Err(index) => {
-                                offset = index + 1;
-                                updated = true;
-                                self.add_unchecked(item);
+                                offset += index;
+                                false
                             }
                         }
                     } else {
-                        if !self.contains(&item) {
-                            //will do either binary or linear search
-                            updated = true;
-                            self.add_unchecked(item);
-                        }
+                        //will do either binary or linear search
+                        self.contains(&item)
+                    };
+                    if !found && !newitems.contains(&item) {
+                        newitems.push(item);
                     }
                 }
-                if self.sorted && updated {
-                    //resort
-                    self.array.to_mut().sort_unstable();
+                if !newitems.is_empty() {
+                    self.array.to_mut().extend(newitems);
+                    if self.sorted {
+                        //resort
+                        self.array.to_mut().sort_unstable();
+                    }
                 }
             }
         }
@@ -310,11 +317,11 @@ where
                 //optimisation if both are sorted
                 match other.array[offset..].binary_search(x) {
                     Ok(index) => {
-                        offset = index + 1;
+                        offset += index + 1;
                         true
                     }
                     Err(index) => {
-                        offset = index + 1;
+                        offset += index;
                         false
                     }
                 }
